@@ -19,7 +19,8 @@ EXTENDS DfirTick
 
 CONSTANTS MaxSteps,     \* number of run calls per behaviour
           Dom,          \* item domain, e.g. 0..2
-          MaxLen        \* max items sent per source per step
+          MaxLen,       \* max items sent per source per step
+          Fuel          \* ticks after which run_available is declared non-terminating
 
 N(op, fn, pers, in, din, k, lp) ==
     [op |-> op, fn |-> fn, pers |-> pers, in |-> in, din |-> din, k |-> k, items |-> <<>>,
@@ -121,7 +122,7 @@ Call(inp, avail) ==
     /\ steps < MaxSteps
     /\ pend = NoPend(prog)
     /\ LET withIn == [k \in 1..prog.nsrc |-> inp[k]]
-           rs == IF avail THEN AvailRun(prog, sts, tick, withIn, AVAILFUEL, <<>>)
+           rs == IF avail THEN AvailRun(prog, sts, tick, withIn, Fuel, <<>>)
                  ELSE <<TickRun(prog, sts, tick, withIn)>>
            tw == TwinTicks(TwinOf(pi), sts2, tick, withIn, Len(rs), <<>>)
        IN /\ sts' = rs[Len(rs)].sts
@@ -156,7 +157,7 @@ AvailEagerSecondTick ==
 
 \* program 3: the cycle dies out: run_available always terminates before the fuel is spent, and
 \* (without overlapping waves) an item x produces x, x+1, .., 3 on consecutive ticks
-AvailDies == pi = 3 => \A t \in 1..Len(log) : log[t].n < AVAILFUEL
+AvailDies == pi = 3 => \A t \in 1..Len(log) : log[t].n < Fuel
 CycleStepPerTick ==
     pi \in {3, 5} =>
         \A t \in 1..(Len(log) - 1) :
@@ -166,7 +167,7 @@ CycleStepPerTick ==
 \* program 4: the cycle never dies: once an item is in, run_available does not terminate
 AvailForever ==
     pi = 4 => \A t \in 1..Len(log) :
-                 (log[t].avail /\ \E u \in 1..t : log[u].inp[1] # <<>>) => log[t].n = AVAILFUEL
+                 (log[t].avail /\ \E u \in 1..t : log[u].inp[1] # <<>>) => log[t].n = Fuel
 
 RECURSIVE SumSeq(_)
 SumSeq(s) == IF s = <<>> THEN 0 ELSE Head(s) + SumSeq(Tail(s))
